@@ -41,6 +41,9 @@ Password    == "@pw"         \* the configured password of the client (inside a 
 \* RFC 7617: the user-id contains no colon, the password may.  The atom stands for the password in each of these shapes
 \* (the harness rotates them over the scenarios); a part of the password delimited by its colons counts as the password.
 PasswordShapes == { "plain", "one-colon", "two-colons" }
+\* MalformedValue: over HTTP/3 a field value is any octet string; a secret-bearing field whose value holds a control octet
+\* (credentials pasted with their newline) makes the request invalid.  The rejection may name the field, never the value:
+\* the harness sends each QUIC scenario shape once more with such a value in Proxy-Authorization, Authorization and Cookie.
 Placeholder == "scrubbed"
 
 Range(f) == { f[i] : i \in DOMAIN f }
